@@ -33,6 +33,10 @@ func quote(t *rapid.T, s string) string {
 type MarkerOpts struct {
 	Extras   []string // extras that may be mentioned ("extra == 'x'")
 	MaxDepth int
+	// VarLitOnly restricts atoms to a variable compared with a literal (either
+	// order), the domain of C16; without it variable-variable and
+	// literal-literal atoms are generated too (C04 totality).
+	VarLitOnly bool
 }
 
 func markerAtom(t *rapid.T, o MarkerOpts) string {
@@ -58,7 +62,11 @@ func markerAtom(t *rapid.T, o MarkerOpts) string {
 			op = "not  in"
 		}
 	}
-	switch rapid.IntRange(0, 9).Draw(t, "shape") {
+	shape := rapid.IntRange(0, 9).Draw(t, "shape")
+	if o.VarLitOnly && (shape == 1 || shape == 2) {
+		shape = 3
+	}
+	switch shape {
 	case 0: // literal on the left
 		return quote(t, lit) + sp1 + op + sp2 + v
 	case 1: // two variables
